@@ -77,12 +77,15 @@ def gen_program(ctx, rng, n):
             d = rng.choice(datas)
             prog.append({"op": "index_insert", "key": k,
                          "opts": {"sri": ref.sri("sha256", d), "time": str(rng.randrange(1000)), "size": rng.randrange(100)}})
-        elif r < 0.9:
+        elif r < 0.89:
             prog.append({"op": "link_to", "key": k, "target_data": target_data, "keyed": rng.random() < 0.7})
+        elif r < 0.9:
+            prog.append({"op": "damage_target", "how": rng.choice(["delete", "modify", "restore"])})
         elif r < 0.95:
             kk, algo, d = rng.choice(written)
             prog.append({"op": "damage_content", "sri": ref.sri(algo, d),
-                         "how": rng.choice(["flip", "truncate", "extend", "delete", "empty"]), "pos": rng.random()})
+                         "how": rng.choice(["flip", "truncate", "extend", "delete", "empty", "dangling-symlink",
+                                            "parent-is-file", "is-directory"]), "pos": rng.random()})
         else:
             prog.append({"op": "damage_bucket", "key": k,
                          "how": rng.choice(["append-garbage", "append-badutf8", "flip", "truncate", "torn-tail", "nul-line"]),
@@ -90,16 +93,49 @@ def gen_program(ctx, rng, n):
     return prog
 
 
-def harness_step(st, cache):
+def harness_step(st, cache, target=None, target_data=b""):
     """Damage steps are executed by the harness itself, identically for every run."""
+    if st["op"] == "damage_target":
+        if target is None:
+            return "n/a"
+        if st["how"] == "delete":
+            try:
+                os.unlink(target)
+            except OSError:
+                pass
+        elif st["how"] == "modify":
+            with open(target, "wb") as f:
+                f.write(target_data + b"+modified")
+        else:
+            with open(target, "wb") as f:
+                f.write(target_data)
+        return st["how"]
     if st["op"] == "damage_content":
         p = ref.content_path_sri(cache, st["sri"])
+        how = st["how"]
+        if how == "parent-is-file":
+            d = os.path.dirname(p)
+            if os.path.isdir(d) and not os.path.islink(d):
+                shutil.rmtree(d)
+                with open(d, "wb") as f:
+                    f.write(b"not a directory")
+                return how
+            return "absent"
+        if not os.path.lexists(p) or os.path.isdir(p):
+            return "absent"
+        if how == "dangling-symlink":
+            os.unlink(p)
+            os.symlink("/nonexistent/cv-dangling-target", p)
+            return how
+        if how == "is-directory":
+            os.unlink(p)
+            os.makedirs(p)
+            return how
         try:
             with open(p, "rb") as f:
                 b = f.read()
         except OSError:
             return "absent"
-        how = st["how"]
         if how == "delete":
             os.unlink(p)
             return "deleted"
@@ -246,7 +282,7 @@ def run_program(ctx, prog, mode_of_step, tag):
     while i < len(prog):
         st = prog[i]
         if st["op"].startswith("damage_"):
-            views.append(("harness", harness_step(st, cache)))
+            views.append(("harness", harness_step(st, cache, target, tdata)))
             i += 1
             continue
         m = route(st, mode_of_step(i))
